@@ -86,22 +86,22 @@ type Arm struct {
 
 // San is the recognised structure of (*Policy).sanitize.
 type San struct {
-	P        *load.Program
-	Fn       *ssa.Function
-	A        *pa.Analysis
-	Recv     *ssa.Parameter
-	Reader   *ssa.Parameter
-	Writer   *ssa.Parameter
-	Header   *ssa.BasicBlock
+	P         *load.Program
+	Fn        *ssa.Function
+	A         *pa.Analysis
+	Recv      *ssa.Parameter
+	Reader    *ssa.Parameter
+	Writer    *ssa.Parameter
+	Header    *ssa.BasicBlock
 	Tokenizer ssa.Value
-	NextCall *ssa.Call
-	TokAlloc *ssa.Alloc
-	TokStore *ssa.Store
-	Arms     map[string]*Arm
-	ArmOrder []string
-	Default  *ssa.BasicBlock // block reached when no token type matched
-	Writes   []*Write
-	Problems []string
+	NextCall  *ssa.Call
+	TokAlloc  *ssa.Alloc
+	TokStore  *ssa.Store
+	Arms      map[string]*Arm
+	ArmOrder  []string
+	Default   *ssa.BasicBlock // block reached when no token type matched
+	Writes    []*Write
+	Problems  []string
 }
 
 var tokenTypeNames = []string{"ErrorToken", "TextToken", "StartTagToken", "EndTagToken", "SelfClosingTagToken", "CommentToken", "DoctypeToken"}
